@@ -223,6 +223,9 @@ def run(chk):
     if chk.tier == "thorough":
         items.insert(0, ("twice VarTimeDoubleScalarBaseMult", lambda: twice(base, chk, "VarTimeDoubleScalarBaseMult")))
     run_kernels(chk, items)
+    from .common import settle_bounds_history
+    # (roots: the operations with slice-of-terms arguments; the byte-string setters' other lengths are C14's symbolic-length paths)
+    settle_bounds_history(chk, prog, [prog.find("Point)." + r) for r in ("ScalarMult", "ScalarBaseMult", "VarTimeDoubleScalarBaseMult", "MultiScalarMult", "VarTimeMultiScalarMult")])
     missing = [fn for fn in fns if not any(fn.replace("filippo.io/edwards25519", "ed") in o.name for o in chk.obs)]
     if missing:
         chk.note_inconclusive("no effects obtained for %s" % missing[:5])
